@@ -61,6 +61,11 @@ func (h *hsm) Sign(data []byte) ([]byte, error) {
 	case "truncated-sig":
 		h.c.Fault("hsm-truncated-signature")
 		return ed25519.Sign(h.priv, data)[:h.c.Int("hsm.sigLen", 0, 63)], nil
+	case "trailing-bytes":
+		// the answer buffer holds the right signature followed by more bytes (a line end, a
+		// status byte, the rest of a fixed-size buffer): not an Ed25519 signature
+		h.c.Fault("hsm-signature-with-trailing-bytes")
+		return append(ed25519.Sign(h.priv, data), h.c.PickStr("hsm.trailing", "\n", "\r\n", "\x00", "\x90\x00", string(make([]byte, 64)))...), nil
 	}
 	return ed25519.Sign(h.priv, data), nil
 }
@@ -80,7 +85,7 @@ func (h *hsm) GetPublicKey() (ed25519.PublicKey, error) {
 	return h.pub, nil
 }
 
-var hsmFaults = []string{"sign-error", "flip-bit", "other-key", "pubkey-mismatch", "pubkey-error", "truncated-sig"}
+var hsmFaults = []string{"sign-error", "flip-bit", "other-key", "pubkey-mismatch", "pubkey-error", "truncated-sig", "trailing-bytes"}
 
 func newHSM(c *core.Ctx, label string, allowFault bool) *hsm {
 	i := c.Int(label+".key", 0, 7)
@@ -248,10 +253,17 @@ func TestHistory(t *testing.T) {
 				tg.ibs2 = &integrityblock.IntegrityBlockSigner{WebBundleHash: tg.hash, IntegrityBlock: tg.blk}
 				targets = append(targets, tg)
 			}
-			k := c.Int("signings", 1, 4) * nb
+			k := c.PickInt("signings", 1, 2, 3, 4, 4, 6, 8) * nb
 			good := 0
 			type kept struct{ got, want []byte }
 			var earlierBlocks []kept
+			type keptCopy struct {
+				blk   integrityblock.IntegrityBlock
+				bytes []byte
+				hash  []byte
+				n     int
+			}
+			var keptCopies []keptCopy
 			allowFaults := c.Bool("allowHsmFaults")
 			var fired []string
 			for i := 0; i < k; i++ {
@@ -288,7 +300,7 @@ func TestHistory(t *testing.T) {
 					ownKey[j] = 0
 				}
 				c.Event("signing %d fault=%q -> err=%v stack=%d", i, h.fault, err != nil, len(blk.SignatureStack))
-				signatureBad := h.fault == "sign-error" || h.fault == "flip-bit" || h.fault == "other-key" || h.fault == "pubkey-mismatch" || h.fault == "truncated-sig"
+				signatureBad := h.fault == "sign-error" || h.fault == "flip-bit" || h.fault == "other-key" || h.fault == "pubkey-mismatch" || h.fault == "truncated-sig" || h.fault == "trailing-bytes"
 				if h.fault != "" {
 					fired = append(fired, h.fault)
 				}
@@ -327,8 +339,17 @@ func TestHistory(t *testing.T) {
 				}
 				checkBlock(c, bb, hash, good, "after signing")
 				earlierBlocks = append(earlierBlocks, kept{bb, append([]byte(nil), bb...)})
+				keptCopies = append(keptCopies, keptCopy{*blk, append([]byte(nil), bb...), hash, good})
 			}
 			if c.Oracle("C07") {
+				// copies of the block kept by the caller (struct copies: they share the signature
+				// stack) must still be the blocks they were, whatever was signed afterwards
+				for i, k := range keptCopies {
+					bb, err := k.blk.CborBytes()
+					if err != nil || !bytes.Equal(bb, k.bytes) {
+						c.Violation("kept-block-changed", "SignAndAddNewSignature", "a copy of the block kept after signing %d serializes differently after the later signings", i)
+					}
+				}
 				for i, k := range earlierBlocks {
 					if !bytes.Equal(k.got, k.want) {
 						c.Violation("result-changed-later", "IntegrityBlock.CborBytes", "the block bytes returned after signing %d were modified by later calls", i)
@@ -377,6 +398,15 @@ func TestCommand(t *testing.T) {
 			defer os.Remove(in.Name())
 			defer in.Close()
 			in.Write(data)
+			if c.Chance("in.unlinked", 1, 5) {
+				// the scratch-file idiom: the input's name is gone (or will mean another file)
+				// while the handle stays open; everything must go through the handle
+				os.Remove(in.Name())
+				if c.Bool("in.nameReused") {
+					os.WriteFile(in.Name(), c.Bytes("in.otherFile", 0, 50), 0644)
+				}
+				c.Fault("input-path-no-longer-names-the-open-file")
+			}
 			outKind := c.PickStr("out.kind", "file", "file", "file", "dev-full", "read-only")
 			var out *os.File
 			outName := in.Name() + ".out"
@@ -539,6 +569,13 @@ func TestObtain(t *testing.T) {
 			defer os.Remove(f.Name())
 			defer f.Close()
 			f.Write(data)
+			if c.Chance("file.unlinked", 1, 5) {
+				os.Remove(f.Name())
+				if c.Bool("file.nameReused") {
+					os.WriteFile(f.Name(), c.Bytes("file.otherFile", 0, 50), 0644)
+				}
+				c.Fault("input-path-no-longer-names-the-open-file")
+			}
 			var blk *integrityblock.IntegrityBlock
 			var off int64
 			pi := c.Guard("ObtainIntegrityBlock", func() { blk, off, err = integrityblock.ObtainIntegrityBlock(f) })
